@@ -31,7 +31,7 @@ class FuncSpec(dict):
 
 
 def gen_function(rng, name="f_target", kind=None, style=None, doc_mode=None, order=None, with_body=False, max_pos=4, max_kw=3,
-                 force_partial_defaults=None):
+                 force_partial_defaults=None, p_default_sentence=0.0):
     """Returns FuncSpec(src=..., params=[...], ...).  params: list of dicts with
     name, kind(pos|kwonly|kwargs), default_src|None, default_class, annotation|None,
     documented(bool), doc(str|None), doc_typ(str|None)."""
@@ -72,8 +72,16 @@ def gen_function(rng, name="f_target", kind=None, style=None, doc_mode=None, ord
     if doc_mode == "some" and len(params) > 1 and not any(p["documented"] for p in params):
         params[rng.randrange(len(params))]["documented"] = True
     for p in params:
+        p["doc_states_default"] = False
         if p["documented"]:
             p["doc"] = "the zq_{} setting used".format(p["name"])
+            if p["default_src"] is not None and p["default_class"] not in ("none",) and rng.random() < p_default_sentence:
+                # the docstring also states the (same) default, as users commonly write it
+                shown = p["default_src"].replace("'", '"') if p["default_class"].startswith("str") else p["default_src"]
+                if p["default_class"].startswith("code"):
+                    shown = "```{}```".format(shown)
+                p["doc"] += ". Defaults to {}".format(shown)
+                p["doc_states_default"] = True
             # type in the docstring: numpydoc/google need one; rest optionally
             if style in ("numpydoc", "google") or rng.random() < 0.4:
                 p["doc_typ"] = p["annotation"] or ("Optional[dict]" if p["kind"] == "kwargs" else rng.choice(ANNOTATIONS[p["default_class"]]))
@@ -88,7 +96,7 @@ def gen_function(rng, name="f_target", kind=None, style=None, doc_mode=None, ord
         rng.shuffle(docd)
     ret_ann = rng.choice([None, None, "int", "np.ndarray", "Optional[str]"])
     has_ret_doc = doc_mode != "none" and rng.random() < 0.5
-    ret_expr = rng.choice([None, "zq_result", "(alpha_zq, 2)", "5"]) if with_body or rng.random() < 0.4 else None
+    ret_expr = rng.choice([None, "zq_result", "(alpha_zq, 2)", "5", "0", "False", "''", "0.0", "None", "", "-1", "'text'"]) if with_body or rng.random() < 0.4 else None
     summary = "Compute the zqsum thing for {}".format(name)
     doc = None if (doc_mode == "none" and rng.random() < 0.5) else render_docstring(style, summary, docd, has_ret_doc, ret_ann)
     # signature
@@ -103,11 +111,11 @@ def gen_function(rng, name="f_target", kind=None, style=None, doc_mode=None, ord
     if with_body:
         body = gen_body(rng, [p["name"] for p in params if p["kind"] != "kwargs"])
         lines += ["    " + l for l in body]
-    if ret_expr:
+    if ret_expr is not None:
         if ret_expr in ("zq_result", "(alpha_zq, 2)"):
             lines.append("    zq_result = 1")
             lines.append("    alpha_zq = 2")
-        lines.append("    return " + ret_expr)
+        lines.append(("    return " + ret_expr).rstrip())
     elif doc is None and not body:
         lines.append("    pass")
     return FuncSpec(src="\n".join(lines) + "\n", params=params, kind=kind, style=style, doc_mode=doc_mode, order=order,
@@ -289,6 +297,9 @@ def gen_module(rng, max_depth=3, want=None):
 
     def emit_class(prefix, indent, depth):
         nm = uniq(CLS_NAMES)
+        if depth > 1 and used and rng.random() < 0.35:
+            # a nested class may re-use the simple name of a class elsewhere in the module
+            nm = rng.choice(sorted(used))
         used.add(nm)
         pad = "    " * indent
         start = len(lines) + 1
